@@ -5,6 +5,7 @@ restore the tree.  Prints one line per (seeded change, property) and writes seed
 Never part of a registered command; /repo is restored with `git checkout -- .` after each patch."""
 import json, os, subprocess, sys, shutil
 ROOT = os.path.dirname(os.path.dirname(os.path.abspath(__file__)))
+REPO = os.environ.get("PDS_REPO", "/repo")   # a worker's own worktree in tools/run_seeded_par.sh
 def sh(cmd, **kw):
     return subprocess.run(cmd, shell=True, capture_output=True, text=True, **kw)
 def main():
@@ -18,8 +19,8 @@ def main():
         if not os.path.isdir(d) or (only and sid not in only):
             continue
         meta = json.load(open(os.path.join(d, "meta.json")))
-        assert sh("git -C /repo status --porcelain").stdout.strip() == "", "/repo not clean"
-        r = sh("git -C /repo apply %s" % os.path.join(d, "patch.diff"))
+        assert sh("git -C %s status --porcelain" % REPO).stdout.strip() == "", "/repo not clean"
+        r = sh("git -C %s apply %s" % (REPO, os.path.join(d, "patch.diff")))
         if r.returncode != 0:
             print(sid, "PATCH DOES NOT APPLY", r.stderr[:200]); continue
         try:
@@ -36,7 +37,7 @@ def main():
                     if os.path.exists(path):
                         shutil.copy(path, os.path.join(d, "detected_replay" + os.path.splitext(path)[1]))
         finally:
-            sh("git -C /repo checkout -- .")
+            sh("git -C %s checkout -- ." % REPO)
             # the runs above rewrote evidence/*.json from a modified tree: put the committed files back
             sh("git -C %s checkout -- evidence" % ROOT)
     json.dump(res, open(rp, "w"), indent=1, sort_keys=True)
